@@ -130,6 +130,17 @@ func (e *Engine) Catalog() *Catalog {
 // started. Unlocked transactions serve as a point in time snapshots and can be
 // just be discarded when not being used further.
 func (e *Engine) Begin(ctx context.Context, lock bool) (*Transaction, error) {
+	// check for a session transaction before taking the engine mutex: the
+	// session methods call Commit and Abort while holding the session mutex,
+	// so the session mutex must never be acquired under the engine mutex
+	nested := false
+	if lock {
+		sess, ok := ensureContext(ctx).Value(sessionKey{}).(*Session)
+		if ok && sess.Transaction() != nil {
+			nested = true
+		}
+	}
+
 	// acquire lock
 	e.mutex.Lock()
 	defer e.mutex.Unlock()
@@ -148,19 +159,15 @@ func (e *Engine) Begin(ctx context.Context, lock bool) (*Transaction, error) {
 	ctx = ensureContext(ctx)
 
 	// check for transaction
-	sess, ok := ctx.Value(sessionKey{}).(*Session)
-	if ok {
-		txn := sess.Transaction()
-		if txn != nil {
-			return nil, fmt.Errorf("detected nested transaction")
-		}
+	if nested {
+		return nil, fmt.Errorf("detected nested transaction")
 	}
 
 	// acquire token (without lock); use a tomb-aware context so that a shutdown
 	// unblocks the acquisition
 	e.mutex.Unlock()
 	verifPoint("begin.unlocked", e)
-	ok = e.token.Acquire(e.tomb.Context(ctx).Done(), time.Minute)
+	ok := e.token.Acquire(e.tomb.Context(ctx).Done(), time.Minute)
 	verifPoint("begin.acquired", e)
 	e.mutex.Lock()
 	if !ok {
